@@ -6,7 +6,7 @@
    as five hypotheses (T_ws, T_num, T_lit, T_esc, and the literals' safety rows are not needed
    here) which are discharged for the regenerated tables at the end of the file. *)
 From Coq Require Import Arith NArith List Lia Bool.
-From LCP Require Import Base.CheckedMem Gen.Repo_json Util.Json Util.JsonSpec Util.JsonRepo.
+From LCP Require Import Base.CheckedMem Gen.Repo_json Util.Json Util.JsonSpec Util.JsonRepo Util.JsonRfc.
 Import ListNotations.
 Local Open Scope res_scope.
 
@@ -798,6 +798,14 @@ Proof.
   intros Hl Hv Hk. unfold json_find_c.
   exact (json_find_at json_numchars json_wsbytes json_literals json_escapes
            repo_T_ws repo_T_num repo_T_lit repo_T_esc lead w ms trail key Hl Hv Hk).
+Qed.
+
+(* in particular for every object that is valid by the strict grammar of RFC 8259 *)
+Corollary json_find_correct_rfc lead w ms trail key :
+  is_wsl lead = true -> rfc_valid (JObj w ms) = true -> no_nul key ->
+  json_find_c (lead ++ render (JObj w ms) ++ trail) key = Ok (find_spec lead (JObj w ms) trail key).
+Proof.
+  intros Hl Hv Hk. exact (json_find_correct lead w ms trail key Hl (rfc_valid_wf _ Hv) Hk).
 Qed.
 
 (* ================= non-vacuity: documents satisfying the hypotheses ================= *)
